@@ -7,6 +7,7 @@ import (
 	"regexp"
 
 	"github.com/scrapli/scrapligo/util"
+	"github.com/scrapli/scrapligo/util/simhook"
 )
 
 // SendInputB sends the given input bytes to the device and returns the bytes read.
@@ -33,6 +34,8 @@ func (c *Channel) SendInputB(input []byte, opts ...util.Option) ([]byte, error) 
 	defer cancel()
 
 	go func() {
+		simhook.Enter("op.sendinput")
+
 		var b []byte
 
 		err = c.Write(input, false)
